@@ -67,7 +67,16 @@ class Transformation:
     def trans_problem(self):
         scaled_problem = self.scaled_problem
 
-        return ConstrainedProblem(scaled_problem)
+        problem = ConstrainedProblem(scaled_problem)
+
+        # Keep the variable bounds in working precision: a projection
+        # onto bounds of higher precision is rounded when it is stored
+        # and may end up outside of them
+        dtype = self.params.dtype
+        problem.var_lb = problem.var_lb.astype(dtype)
+        problem.var_ub = problem.var_ub.astype(dtype)
+
+        return problem
 
     @property
     def initial_iterate(self):
